@@ -12,4 +12,7 @@ replace (
 	gonum.org/v1/gonum/mat => github.com/gonum/gonum/mat v0.9.1
 )
 
-require github.com/bytom/bytom v0.0.0
+require (
+	github.com/bytom/bytom v0.0.0
+	github.com/sirupsen/logrus v1.8.1
+)
